@@ -31,6 +31,10 @@ func (self ValueRange) Display() (string, *Interrupt) {
 }
 
 func (self ValueRange) IsEqual(other Value) (bool, *Interrupt) {
+	// values of different kinds meet inside any-objects and `any` lists: they are not equal
+	if other.Kind() != self.Kind() {
+		return false, nil
+	}
 	otherRange := other.(ValueRange)
 	return *self.Start == *otherRange.Start && *self.End == *otherRange.End && self.EndIsInclusive == otherRange.EndIsInclusive, nil
 }
